@@ -51,7 +51,8 @@ pub struct Case {
     pub retain: bool,
     /// How the two watches were added: 0 watch_directory + watch_file on the Watcher;
     /// 1 one recursive `watch` of a directory tree (records refer to the sub-directory and to the top);
-    /// 2 through the `Events` handle before the first poll.
+    /// 2 through the `Events` handle before the first poll;
+    /// 3 the directory registered twice under two spellings of its path (same watch descriptor: the later path counts).
     pub setup: u8,
 }
 
@@ -131,6 +132,20 @@ pub fn run(case: &Case) -> Vec<Violation> {
             ([top.join("sub"), top], [2i32, 3i32])
         }
         2 => (paths, [1i32, 2i32]),
+        3 => {
+            // The directory is renamed after it was registered and registered again under its new name.
+            let (old, new) = (dir.join("before_rename"), dir.join("after_rename"));
+            let _ = std::fs::remove_dir_all(&old);
+            let _ = std::fs::remove_dir_all(&new);
+            std::fs::create_dir_all(&old).expect("mkdir");
+            talloc::track(|| {
+                watcher.watch_directory(old.clone(), Interest::ALL, Recursive::No).expect("watch dir");
+                watcher.watch_file(paths[1].clone(), Interest::ALL).expect("watch file");
+            });
+            std::fs::rename(&old, &new).expect("rename");
+            talloc::track(|| watcher.watch_directory(new.clone(), Interest::MODIFY, Recursive::No).expect("watch dir again"));
+            ([new, paths[1].clone()], [1i32, 2i32])
+        }
         _ => {
             talloc::track(|| {
                 watcher.watch_directory(paths[0].clone(), Interest::ALL, Recursive::No).expect("watch dir");
@@ -454,7 +469,7 @@ pub fn cases(quick: bool) -> Vec<Case> {
     }
     // The other ways of adding the watches, over a sample of the cases above (all of the short ones).
     let extra: Vec<Case> = v.iter().filter(|c| c.recs.len() <= if quick { 1 } else { 2 } && c.recs.iter().all(|r| r.name_len < 40)).cloned().collect();
-    for setup in [1u8, 2] {
+    for setup in [1u8, 2, 3] {
         for c in &extra {
             v.push(Case { setup, ..c.clone() });
         }
